@@ -445,7 +445,8 @@ def handleQuartet (qs q2s caps lfs hs1 hs2 c11 c12 e11 e12 repliess : String) : 
     let qb : Quartet := ⟨q2.getD 0 0, q2.getD 1 0, q2.getD 2 0, q2.getD 3 0⟩
     let dist := qa.distinct && qb.distinct
     let same := qa.sameTaxa qb
-    let tags := tagIf dist "distinct" ++ tagIf (!dist) "repeated-taxon" ++ tagIf same "sametaxa" ++ tagIf (cap == 0) "cap0" ++ tagIf dist "nontrivial"
+    let tags := tagIf dist "distinct" ++ tagIf (!dist) "repeated-taxon" ++ tagIf same "sametaxa" ++
+      tagIf (!same && qa.hashCode == qb.hashCode) "hash-collision-other-taxa" ++ tagIf (cap == 0) "cap0" ++ tagIf dist "nontrivial"
     -- oracle
     if c11 != cmpStr Quartet.specCompare p1 p1 || c12 != cmpStr Quartet.specCompare p1 p2 then
       ⟨.oracle, tags, "Compare differs from same-topology / same-taxa"⟩
